@@ -348,6 +348,11 @@ def sched_configs(tier="quick"):
     out.append(dict(env="fjsp", jobs=4, mas=2, min_ops=2, max_ops=3, mask_no_ops=True, n=12, pmax=6000))
     out.append(dict(env="jssp", jobs=4, mas=3, one2one=True, mask_no_ops=True, n=12, pmax=6000))
     out.append(dict(env="jssp", jobs=3, mas=2, min_ops=1, max_ops=2, one2one=False, mask_no_ops=False, n=6, pmax=9000))
+    # production sizes (the generators' defaults and above)
+    out.append(dict(env="fjsp", jobs=10, mas=5, min_ops=4, max_ops=6, mask_no_ops=True, n=60, pmax=20))
+    out.append(dict(env="jssp", jobs=10, mas=6, one2one=True, mask_no_ops=True, n=60, pmax=99))
+    out.append(dict(env="ffsp", stages=3, mas=4, jobs=12, flatten=True, n=36, tmax=10))
+    out.append(dict(env="smtwtp", n=50))
     # documented constructor options of the job-shop envs that no other config sets: step-wise reward (change of the lower bound
     # of the makespan) and the env's own mask assertion
     out.append(dict(env="fjsp", jobs=4, mas=3, min_ops=1, max_ops=3, mask_no_ops=True, n=12, stepwise=True))
@@ -371,6 +376,7 @@ def select_configs(tier="quick"):
     out.append(dict(env="flp", n=12, k=2, dist="normal", std=2.0))
     for items, sets, k in ([(8, 5, 2), (12, 6, 3), (10, 4, 4), (9, 5, 1)] if tier == "quick" else [(8, 5, 2), (12, 6, 3), (10, 4, 4), (9, 5, 1), (40, 15, 5)]):
         out.append(dict(env="mcp", n=sets, items=items, k=k))
+    out.append(dict(env="mcp", n=100, items=200, k=10, min_size=5, max_size=15))  # the generator's default size
     for size, kmin, kmax, dec in ([(4, 1, 4, 3), (5, 3, 10, 6), (4, 5, 6, 10)] if tier == "quick" else [(4, 1, 4, 3), (5, 3, 10, 6), (4, 5, 6, 10), (6, 5, 20, 12)]):
         out.append(dict(env="dpp", n=size * size, size=size, kmin=kmin, kmax=kmax, decaps=dec))
     # MDPPEnv always builds a default DPPGenerator first (default files, 10x10, max_decaps=20) and keeps ITS size /
